@@ -402,6 +402,13 @@ func (p *Prog) callEffects(fi *FuncInfo, info *types.Info, call *ast.CallExpr, e
 		if strings.HasPrefix(full, "math/rand.") {
 			e.Nondet["rand:"+fi.Name] = full + " at " + p.pos(call)
 		}
+		if cat == "" && o.Pkg() != nil && !extPure[full] {
+			switch o.Pkg().Path() {
+			case "os", "io/ioutil", "io", "bufio", "syscall", "os/exec", "io/fs":
+				e.Ghost["fs"] = true
+				e.Ghost["stdout"] = true
+			}
+		}
 		// an external function may write through pointer / map arguments (and receiver)
 		pure := extPure[full]
 		if !pure {
